@@ -132,4 +132,28 @@ theorem put_copy_sets (st : Store) (s : Nat) (l : List Nat) :
     (st.put s false l).1.sets = st.sets ++ [l] ∧ (st.put s false l).2 = st.sets.length := by
   simp [Store.put]
 
+theorem lookup_filter_ne (ps : List (Nat × Int)) (k k' : Nat) (h : k' ≠ k) :
+    List.lookup k' (ps.filter (fun kv => decide (kv.1 ≠ k))) = List.lookup k' ps := by
+  induction ps with
+  | nil => rfl
+  | cons p ps ih =>
+    obtain ⟨pk, pv⟩ := p
+    by_cases hp : pk = k
+    · subst hp
+      have hne : (k' == pk) = false := by simpa using h
+      rw [List.filter_cons]
+      simp only [ne_eq, not_true_eq_false, decide_false, Bool.false_eq_true, if_false, List.lookup, hne]
+      exact ih
+    · rw [List.filter_cons]
+      simp only [ne_eq, hp, not_false_eq_true, decide_true, if_true, List.lookup]
+      cases (k' == pk)
+      · exact ih
+      · rfl
+
+/-- `setattr(agent, k, v)` leaves every other attribute of the agent alone -/
+theorem setAttr_attr_other (a : Agent) (k k' : Nat) (v : Int) (h : k' ≠ k) : (a.setAttr k v).attr k' = a.attr k' := by
+  have hne : (k' == k) = false := by simpa using h
+  simp only [Agent.setAttr, Agent.attr, List.lookup, hne]
+  exact lookup_filter_ne a.attrs k k' h
+
 end Mesa.ASet
